@@ -321,8 +321,12 @@ def correspond(ctx):
     # (e) threads -------------------------------------------------------------
     rounds = 5 if ctx.quick() else 100
     bad_threads = 0
-    for rd in range(rounds):
+    directed = [[ep] * 6 for ep in ('sdp', 'conelp', 'coneqp', 'cpl', 'sdp', 'socp')] * (1 if ctx.quick() else 5)
+    old_interval = sys.getswitchinterval(); sys.setswitchinterval(1e-5)          # switch threads often: more interleavings per round
+    for rd in range(rounds + len(directed)):
         eps = [rng.choice(EPS[:9]) for _ in range(rng.randint(2, 8))]   # op.solve builds modeling objects: kept sequential
+        # directed rounds: several threads inside the same entry point at once (same code path, same work-space shapes)
+        if rd >= rounds: eps = directed[rd - rounds]
         res = [None] * len(eps)
         # every thread gets its own problem instance (independent problems)
         argsets = [problems.basic_calls(cvxopt) for _ in eps]
@@ -341,13 +345,14 @@ def correspond(ctx):
                 bad_threads += 1
                 ctx.violation('c09:thread-dependent:' + ep, 'result of %s in a thread (round %s) differs from the sequential run' % (ep, eps),
                               {'entry': ep, 'round': eps})
+    sys.setswitchinterval(old_interval)
     ctx.cov.update({'evaluations': evals, 'distinct_nontrivial': len(distinct),
                     'rule': 'option dictionaries (45%% absent / 30%% valid / 25%% arbitrary values per key) x 9 entry points compared '
                             'with the generated parser; flow probes (maxiters=1 per call and globally) for all 10 entry points; '
-                            'call histories of length 2-6 with edits of solvers.options in between; thread rounds of 2-8 concurrent '
+                            'call histories of length 2-6 with edits of solvers.options in between; thread rounds of 2-8 concurrent (random mixes, and directed rounds of six threads inside the same entry point; switch interval 1e-5 s) '
                             'solves; distinct = (entry point, option dictionary) or history',
                     'protocol_lines_compared': len(lines), 'disagreements_checked': dis, 'histories': hist_n,
-                    'thread_rounds': rounds})
+                    'thread_rounds': rounds + len(directed)})
     ctx.samples += [l for l in lines[:3]] + [l for l in lines[12:15]]
 
 def search(ctx, why):
